@@ -16,6 +16,7 @@ def sl(t): return ("slice", t)
 def ptr(t): return ("ptr", t)
 def gm(t): return ("gomap", t)
 def fm(t): return ("fpmap", t)
+def fk(t): return ("fkmap", t)
 def wrap(t): return ("wrap", t)
 def tup(*ts): return ("tup",) + ts
 def hl(*ts): return ("hl",) + ts
@@ -37,6 +38,8 @@ TYPES += [hl(*([ptr(INT)] * n)) for n in (2, 3, 5)]
 # fast path that misjudges such elements as plain would copy them shallowly
 TYPES += [sl(opt(ptr(INT))), seq(opt(sl(INT))), sl(opt(sl(INT))), seq(hl(sl(INT), INT)), sl(hl(ptr(INT))), seq(tup(ptr(INT), INT)),
           sl(opt(gm(INT))), seq(opt(ptr(sl(INT)))), gm(opt(sl(INT))), ptr(opt(sl(INT))), opt(hl(sl(INT)))]
+# maps whose key type has values no lookup can find (NaN)
+TYPES += [fk(INT), fk(sl(INT)), fk(ptr(INT)), sl(fk(sl(INT)))]
 
 
 def tid(t):
@@ -60,6 +63,7 @@ def gotype(t):
     if k == "ptr": return "*%s" % gotype(t[1])
     if k == "gomap": return "map[string]%s" % gotype(t[1])
     if k == "fpmap": return "fp.Map[int, %s]" % gotype(t[1])
+    if k == "fkmap": return "map[float64]%s" % gotype(t[1])
     if k == "wrap": return "tcWrap[%s]" % gotype(t[1])
     if k == "tup": return "fp.Tuple%d[%s]" % (len(t) - 1, ", ".join(gotype(x) for x in t[1:]))
     if k == "hl":
@@ -94,6 +98,10 @@ def inst(cls, t):
     if k == "fpmap":
         if cls == "eq": return "eq.FpMap[int](%s)" % sub[0]
         return None
+    if k == "fkmap":
+        # float keys (key 9 stands for NaN, which no lookup finds): only Clone is meaningful
+        if cls == "clone": return "clone.GoMap(clone.Given[float64](), %s)" % sub[0]
+        return None
     if k == "wrap":
         if cls == "clone": return None
         return "%s.ContraMap(%s, func(w %s) %s { return w.X })" % (P, sub[0], gotype(t), gotype(t[1]))
@@ -125,7 +133,7 @@ def emit():
     w("//go:build verif\n")
     w("// Code generated by harness/gen/typeclass_gen.py, DO NOT EDIT.\n")
     w("package main\n")
-    w('import (\n\t"github.com/csgura/fp"\n\t"github.com/csgura/fp/clone"\n\t"github.com/csgura/fp/eq"\n\t"github.com/csgura/fp/hash"\n\t"github.com/csgura/fp/hlist"\n\t"github.com/csgura/fp/immutable"\n\t"github.com/csgura/fp/lazy"\n\t"github.com/csgura/fp/ord"\n)\n')
+    w('import (\n\t"math"\n\t"sort"\n\n\t"github.com/csgura/fp"\n\t"github.com/csgura/fp/clone"\n\t"github.com/csgura/fp/eq"\n\t"github.com/csgura/fp/hash"\n\t"github.com/csgura/fp/hlist"\n\t"github.com/csgura/fp/immutable"\n\t"github.com/csgura/fp/lazy"\n\t"github.com/csgura/fp/ord"\n)\n')
     w("var _ = immutable.Map[int, int]\nvar _ = hlist.Empty\nvar _ = lazy.Done[int]\n")
     for t in allt:
         i, g, k = tid(t), gotype(t), t[0]
@@ -145,6 +153,8 @@ def emit():
             w('\tif a.T == "nilptr" {\n\t\treturn nil\n\t}\n\tif p, ok := pl.get(a.Id); ok {\n\t\treturn p.(%s)\n\t}\n\tv := mk_%s(a.V, pl)\n\tpl.put(a.Id, &v)\n\treturn &v' % (g, tid(t[1])))
         elif k == "gomap":
             w("\tif a.Nil {\n\t\treturn nil\n\t}\n\tr := %s{}\n\tfor i, kk := range a.Ks {\n\t\tr[tcKey(kk)] = mk_%s(a.Vs[i], pl)\n\t}\n\treturn r" % (g, tid(t[1])))
+        elif k == "fkmap":
+            w("\tif a.Nil {\n\t\treturn nil\n\t}\n\tr := %s{}\n\tfor i, kk := range a.Ks {\n\t\tkey := float64(kk)\n\t\tif kk == 9 {\n\t\t\tkey = math.NaN()\n\t\t}\n\t\tr[key] = mk_%s(a.Vs[i], pl)\n\t}\n\treturn r" % (g, tid(t[1])))
         elif k == "fpmap":
             w("\tr := immutable.Map[int, %s](hash.Number[int]())\n\tfor i, kk := range a.Ks {\n\t\tr = r.Updated(kk, mk_%s(a.Vs[i], pl))\n\t}\n\treturn r" % (gotype(t[1]), tid(t[1])))
         elif k == "wrap":
@@ -173,6 +183,8 @@ def emit():
             w('\tif v == nil {\n\t\treturn &AV{T: "nilptr"}\n\t}\n\treturn &AV{T: "ptr", V: av_%s(*v)}' % tid(t[1]))
         elif k == "gomap":
             w('\tr := &AV{T: "map", Nil: v == nil, Ks: []int{}, Vs: []*AV{}}\n\tfor _, kk := range tcSortedKeys(v) {\n\t\tr.Ks = append(r.Ks, tcKeyNum(kk))\n\t\tr.Vs = append(r.Vs, av_%s(v[kk]))\n\t}\n\treturn r' % tid(t[1]))
+        elif k == "fkmap":
+            w('\tr := &AV{T: "map", Nil: v == nil, Ks: []int{}, Vs: []*AV{}}\n\ttype kv struct {\n\t\tk int\n\t\tv *AV\n\t}\n\tps := []kv{}\n\tfor kk, vv := range v {\n\t\tn := 9\n\t\tif kk == kk {\n\t\t\tn = int(kk)\n\t\t}\n\t\tps = append(ps, kv{n, av_%s(vv)})\n\t}\n\tsort.Slice(ps, func(i, j int) bool { return ps[i].k < ps[j].k })\n\tfor _, e := range ps {\n\t\tr.Ks = append(r.Ks, e.k)\n\t\tr.Vs = append(r.Vs, e.v)\n\t}\n\treturn r' % tid(t[1]))
         elif k == "fpmap":
             w('\tr := &AV{T: "map", Ks: []int{}, Vs: []*AV{}}\n\tfor kk := 0; kk < 64; kk++ {\n\t\tif o := v.Get(kk); o.IsDefined() {\n\t\t\tr.Ks = append(r.Ks, kk)\n\t\t\tr.Vs = append(r.Vs, av_%s(o.Get()))\n\t\t}\n\t}\n\treturn r' % tid(t[1]))
         elif k == "wrap":
